@@ -46,7 +46,7 @@ EXHAUSTIVE = {"quick": False, "thorough": True}
 CASE_TIMEOUT = 900
 TIMEOUTS = {"gate2qt": 1800, "mprocess": 900}
 
-EXPECTED = {"state": 749, "povm": 112, "gate2qt_total": 39204, "mprocess_single": 13, "ensemble": 7}
+EXPECTED = {"state": 749, "povm": 112, "gate2qt_total": 39204, "mprocess_single": 13, "ensemble": 3}
 
 
 def chunks(xs, n):
